@@ -105,15 +105,30 @@ impl Rig {
         Rig { group, client, _server: server, n: 0 }
     }
 
-    async fn transfer(&mut self, set: &Set2) -> Result<Set2, String> {
-        self.n += 1;
-        let name = format!("s{}", self.n);
-        self.group.add_state(name.clone(), set.clone()).await;
-        match tokio::time::timeout(Duration::from_secs(20), self.client.get_state(name)).await {
+    async fn fetch(&mut self, name: &str) -> Result<Set2, String> {
+        match tokio::time::timeout(Duration::from_secs(20), self.client.get_state(name.to_string())).await {
             Ok(Ok((_, s))) => Ok(s),
             Ok(Err(status)) => Err(format!("get_state failed: {status:?}")),
             Err(_) => Err("get_state timed out".into()),
         }
+    }
+
+    async fn transfer(&mut self, set: &Set2) -> Result<Set2, String> {
+        self.n += 1;
+        let name = format!("s{}", self.n);
+        self.group.add_state(name.clone(), set.clone()).await;
+        self.fetch(&name).await
+    }
+
+    /// The same keyspace is fetched again after the sender purged its tombstones (no write in between):
+    /// the peer must be handed the state as it is NOW.
+    async fn refetch_after_purge(&mut self) -> Result<(Set2, Set2), String> {
+        let name = format!("s{}", self.n);
+        let actor = self.group.get_or_create_keyspace(&name).await;
+        let _ = actor.send(datacake_eventual_consistency::verif::PurgeDeletes(std::marker::PhantomData::<MemStore>)).await;
+        let now = crate::keyspace::decode_set(&actor.send(datacake_eventual_consistency::verif::Serialize).await.map_err(|_| "serialize".to_string())?);
+        let got = self.fetch(&name).await?;
+        Ok((now, got))
     }
 }
 
@@ -166,6 +181,7 @@ pub async fn replay() {
     let mut sum = Summary::default();
     let mut rig = Rig::new().await;
     let (mut empty_states, mut tomb_only, mut both_sources) = (0u64, 0u64, 0u64);
+    let mut refetches = 0u64;
     for key in &order {
         let set = &states[key];
         sum.evaluations += 1;
@@ -191,6 +207,23 @@ pub async fn replay() {
                 }
                 if sum.evaluations % 5000 == 1 {
                     sum.sample(json!({"state": project(scale, set), "received_equal": true}));
+                }
+                // states with purgeable tombstones: purge at the sender, fetch the same keyspace again
+                if !set.clone().purge_old_deletes().is_empty() {
+                    refetches += 1;
+                    match rig.refetch_after_purge().await {
+                        Err(e) => sum.violation(json!({"property": "C19", "why": [e], "state": project(scale, set)})),
+                        Ok((now, got2)) => {
+                            let mut why = compare(&now, &got2, &keys, &probes);
+                            if project(scale, &now) != project(scale, &got2) {
+                                why.push("after the sender purged its tombstones, a second fetch of the same keyspace is not the sender's current state".into());
+                            }
+                            if !why.is_empty() {
+                                sum.violation(json!({"property": "C19", "why": why, "state_before_purge": project(scale, set),
+                                                     "sender_now": project(scale, &now), "received": project(scale, &got2)}));
+                            }
+                        },
+                    }
                 }
             },
         }
@@ -243,6 +276,7 @@ pub async fn replay() {
         }
     }
     sum.set("model_states", order.len() as u64);
+    sum.set("refetches_after_purge", refetches);
     sum.set("inflated_states", inflated);
     sum.set("inflated_entries", inflated_entries);
     sum.set("empty_states", empty_states);
